@@ -1,5 +1,5 @@
 (* Props/C10.v — the theorems that decide property C10.  Statements only. *)
-From CKB Require Import Freezer.Freeze Freezer.FreezeProofs.
+From CKB Require Import Freezer.Freeze Freezer.FreezeProofs Freezer.FreezeParts Freezer.FreezePartsProofs.
 
 (* Every main-chain block reads the same (through the store's height switch:
    below Freezer::number() from the freezer, otherwise from the key-value
@@ -37,8 +37,68 @@ Theorem c10_example :
   = [Some 101%N; Some 102%N; Some 103%N; Some 104%N; Some 105%N].
 Proof. exact ex_freeze. Qed.
 
+(* The same at the granularity of the store's columns and of every getter the
+   property lists: header, body, transaction hashes, cellbase, uncles,
+   proposals, extension, the block as a view and in packed form answer for
+   every main-chain block exactly what the block contains, at every point of
+   any sequence of freeze passes — each append, the sync, the batch that
+   deletes the frozen blocks' part rows, the batch that deletes side-chain
+   blocks stored under frozen numbers, a crash + re-open anywhere. *)
+Theorem c10_parts_read_invariant : forall (main : nat -> blk) (tip : nat),
+  (forall h h', 0 < h <= tip -> 0 < h' <= tip -> b_id (main h) = b_id (main h') -> h = h') ->
+  (forall h, 0 < h <= tip -> b_body (main h) <> []) ->
+  forall s ops h, pinitial main tip s -> 0 < h <= tip ->
+  let s' := prun s ops in let id := b_id (main h) in
+  get_header s' id = Some (b_hdr (main h)) /\
+  get_body s' id = b_body (main h) /\
+  get_txs_hashes s' id = b_body (main h) /\
+  get_cellbase s' id = hd_error (b_body (main h)) /\
+  get_uncles s' id = Some (b_uncles (main h)) /\
+  get_props s' id = Some (b_props (main h)) /\
+  get_ext s' id = b_ext (main h) /\
+  get_block s' id = Some (main h) /\
+  get_packed_block s' id = Some (main h).
+Proof. exact parts_read_invariant. Qed.
+
+(* whatever row a step deletes belongs to a main-chain block that is durably in
+   the freezer, or to a block that is not on the main chain and is stored under
+   a number this pass has frozen *)
+Theorem c10_only_frozen_or_side_removed : forall (main : nat -> blk) (tip : nat) s o id,
+  PInv main tip s ->
+  p_uncles s id <> None -> p_uncles (pstep_run s o) id = None ->
+  (exists h, 0 < h <= p_synced s /\ id = b_id (main h) /\ nth_error (p_fz s) (h - 1) = Some (main h)) \/
+  ((forall h, 0 < h <= tip -> id <> b_id (main h)) /\
+   exists n, p_numhash s n id = true /\ In n (map fst (p_ret s)) /\ n <= p_synced s).
+Proof. exact only_frozen_or_side_removed. Qed.
+
+Theorem c10_parts_inv_reachable : forall (main : nat -> blk) (tip : nat),
+  (forall h h', 0 < h <= tip -> 0 < h' <= tip -> b_id (main h) = b_id (main h') -> h = h') ->
+  forall s ops, pinitial main tip s -> PInv main tip (prun s ops).
+Proof. intros main tip Hinj s ops Hi. apply prun_inv; [exact Hinj|]. apply pinitial_inv. exact Hi. Qed.
+
+(* non-vacuity, and F11: with the part getters as they were before the repair
+   71875e4 (key-value store only) the statement is false *)
+Theorem c10_parts_example : pinitial ex_main 5 ex_s0 /\
+  let s := prun ex_s0 ex_ops in
+  map (fun h => get_block s (b_id (ex_main h))) [1; 2; 3; 4; 5] = map (fun h => Some (ex_main h)) [1; 2; 3; 4; 5] /\
+  length (p_fz s) = 4.
+Proof. split; [exact ex_pinitial|]. cbv zeta. split; [apply ex_parts|apply ex_parts]. Qed.
+
+Theorem c10_parts_old_refuted :
+  let s := prun ex_s0 [PBegin; PAppend; PAppend; PSync; PWipeMain] in
+  get_uncles_old s (b_id (ex_main 1)) <> Some (b_uncles (ex_main 1)) /\
+  get_body_old s (b_id (ex_main 1)) <> b_body (ex_main 1) /\
+  get_props_old s (b_id (ex_main 2)) <> Some (b_props (ex_main 2)) /\
+  get_ext_old s (b_id (ex_main 2)) <> b_ext (ex_main 2).
+Proof. exact parts_old_refuted. Qed.
+
 Redirect "out/C10.c10_reads_invariant" Print Assumptions c10_reads_invariant.
 Redirect "out/C10.c10_step_inv" Print Assumptions c10_step_inv.
 Redirect "out/C10.c10_wipe_only_frozen" Print Assumptions c10_wipe_only_frozen.
 Redirect "out/C10.c10_only_old_moved" Print Assumptions c10_only_old_moved.
 Redirect "out/C10.c10_example" Print Assumptions c10_example.
+Redirect "out/C10.c10_parts_read_invariant" Print Assumptions c10_parts_read_invariant.
+Redirect "out/C10.c10_only_frozen_or_side_removed" Print Assumptions c10_only_frozen_or_side_removed.
+Redirect "out/C10.c10_parts_inv_reachable" Print Assumptions c10_parts_inv_reachable.
+Redirect "out/C10.c10_parts_example" Print Assumptions c10_parts_example.
+Redirect "out/C10.c10_parts_old_refuted" Print Assumptions c10_parts_old_refuted.
